@@ -39,6 +39,13 @@ R_rem(m)   == [k |-> "re",    n |-> "re",       a |-> 0, text |-> "re=" \o RePat
 RePat2     == "'^z+$'"
 R_re2      == [k |-> "re",    n |-> "re",       a |-> 0, text |-> "re=" \o RePat2, key |-> "re", val |-> RePat2, msg |-> "", lab |-> ""]
 
+\* datetime with the default separators and with a PARTIAL separator list (only the date separator given: the other two
+\* keep their defaults, for this rule instance only)
+R_dt       == [k |-> "dt",    n |-> "datetime", a |-> 0, text |-> "datetime", key |-> "datetime", val |-> "", msg |-> "", lab |-> ""]
+R_dts      == [k |-> "dt",    n |-> "datetime", a |-> 0, text |-> "datetime='/'", key |-> "datetime", val |-> "'/'", msg |-> "", lab |-> ""]
+DtDash  == "2024-02-29 23:59:58"
+DtSlash == "2024/02/29 23:59:58"
+
 \* a cross-field group rule (its clause is written after all per-field clauses of the call)
 R_either   == [k |-> "either", n |-> "either",  a |-> 0, text |-> "either=1", key |-> "either", val |-> "1", msg |-> "", lab |-> ""]
 
@@ -49,6 +56,12 @@ JoinText(rs) == IF rs = <<>> THEN "" ELSE FoldLeft(LAMBDA acc, r : acc \o "," \o
 
 \* functions registered globally before any call starts (SetCustomerValidFn)
 GlobalFns == {"g_1", "g_2"}
+\* The global table is process state.  A sequential run passes through epochs: 0 = as registered before the first call;
+\* 1 = LateFn registered as well (a name earlier calls could only find missing); 2 = g_1 registered again, with another
+\* function (it reports itself as g_1#2).  A call's result depends on the table as it is WHEN THE CALL RUNS.
+LateFn == "g_3"
+Epochs == 0..2
+GlobAt(ep) == [n \in GlobalFns \cup (IF ep >= 1 THEN {LateFn} ELSE {}) |-> IF ep = 2 /\ n = "g_1" THEN "g_1#2" ELSE n]
 TagNames == <<"valid", "a", "b">>
 
 ----------------------------------------------------------------------------
@@ -98,6 +111,8 @@ Sl(T, es)   == [k |-> "slice", n |-> 0, s |-> T, re |-> FALSE, fs |-> es]
 \* arguments Var cannot validate: a struct value, a nil interface (the call ends early with one error)
 BadVar == [k |-> "badvar", n |-> 0, s |-> "", re |-> FALSE, fs |-> <<>>]
 NilVar == [k |-> "nilvar", n |-> 0, s |-> "", re |-> FALSE, fs |-> <<>>]
+Sdash  == S(DtDash, 19, FALSE)
+Sslash == S(DtSlash, 19, FALSE)
 Sab == S("ab", 2, TRUE)
 Szz == S("zz", 2, FALSE)
 Se  == S("", 0, FALSE)
@@ -165,7 +180,21 @@ Menu12 == <<
   DStruct("m15", "T1", "valid", NilPtr("T1"), <<>>, UnscopedOf("T1"), <<"p_t6">>),
   \* Var on something it cannot validate, with rules and functions set: ends early, and must leave nothing behind
   DVar("m16", BadVar, <<R_ge(8), R_fn("p_t5")>>, <<"p_t5">>),
-  DVar("m17", NilVar, <<R_reqm("never asked")>>, <<>>) >>
+  DVar("m17", NilVar, <<R_reqm("never asked")>>, <<>>),
+  \* names looked up in the global table: missing in epoch 0, found from epoch 1 on (g_3); another function from epoch 2 on (g_1)
+  DVar("m18", I(7), <<R_fn("g_3"), R_ge(8)>>, <<>>),
+  DStruct("m19", "T1", "valid", ValsA("T1")[2], <<>>, <<RME("B", <<R_fn("g_3")>>), RME("A", <<R_fn("g_1")>>)>>, <<>>),
+  DVar("m20", Sab, <<R_fn("g_1")>>, <<>>),
+  \* datetime: a partial separator list, then the default list - on the value the OTHER list accepts, and on its own
+  DVar("m21", Sslash, <<R_dts>>, <<>>),
+  DVar("m22", Sdash, <<R_dt>>, <<>>),
+  DVar("m23", Sslash, <<R_dt>>, <<>>),
+  \* Url: a pair that cannot be decoded after a good one (some error; which clauses accompany it is not fixed), and a query
+  \* that lacks a key its rule map requires
+  DUrl("m24", <<E("u1", Sab), E("u2", S("%zz", 3, FALSE))>>, <<RME("u1", <<R_req>>), RME("u2", <<R_req>>)>>, <<>>),
+  DUrl("m25", <<E("u2", Sab)>>, <<RME("u1", <<R_reqm("u1 must be given")>>), RME("u2", <<R_req>>)>>, <<>>) >>
+\* descriptors on which the contract fixes only THAT the call fails
+FreeKeys == {"m24"}
 
 (* the product family used by the concurrent streams *)
 NT == Len(RootTypes)
@@ -221,9 +250,10 @@ Cl(p, m, x, v) == [p |-> p, m |-> m, x |-> x, v |-> v]
 VPath(obj, f)  == IF obj # "" /\ f # "" THEN obj \o "." \o f ELSE f
 NEPath(obj, f) == IF obj # "" /\ f # "" THEN obj \o "." \o f ELSE ""
 
-OwnCfg(d) == [tag |-> d.tag, typed |-> d.typed,
-              unscoped |-> IF d.car = "var" THEN <<RME("validVar", d.rules)>> ELSE d.unscoped,
-              fns |-> d.fns]
+OwnCfgAt(d, ep) == [tag |-> d.tag, typed |-> d.typed,
+                    unscoped |-> IF d.car = "var" THEN <<RME("validVar", d.rules)>> ELSE d.unscoped,
+                    fns |-> d.fns, glob |-> GlobAt(ep)]
+OwnCfg(d) == OwnCfgAt(d, 0)
 
 EffRules(cfg, T, f, depth) ==
   LET trm  == TypedGet(cfg.typed, T)
@@ -241,8 +271,8 @@ EvRule(cfg, obj, fname, depth, fv, r) ==
   CASE r.k = "fn" ->
          IF r.n \in Range(cfg.fns)
          THEN IF Zero(fv) THEN <<>> ELSE <<Cl(VPath(obj, fname), "tok", r.n, "own")>>
-         ELSE IF r.n \in GlobalFns
-         THEN IF Zero(fv) THEN <<>> ELSE <<Cl(VPath(obj, fname), "glob", r.n, "")>>
+         ELSE IF r.n \in DOMAIN cfg.glob
+         THEN IF Zero(fv) THEN <<>> ELSE <<Cl(VPath(obj, fname), "glob", cfg.glob[r.n], "")>>
          ELSE <<Cl(NEPath(obj, fname), "notexist", r.n, "")>>
     [] r.k = "req" ->
          IF Zero(fv) THEN <<Cl(VPath(obj, fname), IF r.msg = "" THEN "required" ELSE "custom", r.msg, "")>>
@@ -252,6 +282,8 @@ EvRule(cfg, obj, fname, depth, fv, r) ==
     [] r.k = "either" -> <<>>                       \* member registered; judged at the end of the call (EvGroups)
     [] r.k = "ge" -> IF Zero(fv) \/ fv.n >= r.a THEN <<>> ELSE <<Cl(VPath(obj, fname), "lt", ToString(r.a), EchoOf(fv))>>
     [] r.k = "le" -> IF Zero(fv) \/ fv.n <= r.a THEN <<>> ELSE <<Cl(VPath(obj, fname), "gt", ToString(r.a), EchoOf(fv))>>
+    [] r.k = "dt" -> IF Zero(fv) \/ fv.s = (IF r.val = "" THEN DtDash ELSE DtSlash) THEN <<>>
+                     ELSE <<Cl(VPath(obj, fname), "dt", "", fv.s)>>
     [] r.k = "re" -> IF Zero(fv) \/ (IF r.val = RePat2 THEN fv.s = "zz" ELSE fv.re) THEN <<>>
                      ELSE <<Cl(VPath(obj, fname), IF r.msg = "" THEN "re" ELSE "custom", r.msg, fv.s)>>
 EvRules(cfg, obj, fname, depth, fv, rs) ==
@@ -268,6 +300,14 @@ EvGroups(cfg, T, v) ==
   ELSE <<>>
 
 MapField(k) == "map[" \o k \o "]"
+\* keys the rule map requires and the query lacks (fix a4b66b2), after the clauses of the pairs that are there; the menu
+\* has at most one such key per call, so their mutual order (Go map iteration) does not arise
+MissingReq(d, cfg) ==
+  LET have == {d.entries[i].k : i \in 1..Len(d.entries)}
+      miss == SelectSeq(cfg.unscoped, LAMBDA e : e.f \notin have /\ \E j \in 1..Len(e.rs) : e.rs[j].k = "req")
+  IN FlattenSeq([i \in 1..Len(miss) |->
+       LET r == (SelectSeq(miss[i].rs, LAMBDA x : x.k = "req"))[1]
+       IN <<Cl(miss[i].f, IF r.msg = "" THEN "required" ELSE "custom", r.msg, "")>>])
 Eval(d, cfg) ==
   CASE d.car = "struct" /\ d.val.k = "nilptr" ->        \* a nil root pointer: one error, nothing walked (fix 00f6dc3)
          <<Cl("", "other", "src \"*main." \o Types[d.T].name \o "\" is nil", "")>>
@@ -279,27 +319,34 @@ Eval(d, cfg) ==
                               EvRules(cfg, "", MapField(d.entries[i].k), 0, d.entries[i].v, RMGet(cfg.unscoped, d.entries[i].k))])
     [] d.car = "url"    -> FlattenSeq([i \in 1..Len(d.entries) |->
                               EvRules(cfg, "", d.entries[i].k, 0, d.entries[i].v, RMGet(cfg.unscoped, d.entries[i].k))])
+                           \o MissingReq(d, cfg)
     [] d.car = "split"  -> [i \in 1..Len(d.rules) |-> Cl("", "token", d.rules[i].text, "")]
     [] d.car = "parse"  -> <<Cl(d.rules[1].key, "kv", d.rules[1].val, d.rules[1].lab)>>
 
 Expected(d) == Eval(d, OwnCfg(d))
 ExpTable == [i \in 1..NDesc |-> Expected(Universe[i])]
+ExpectedAt(d, ep) == Eval(d, OwnCfgAt(d, ep))
+ExpTableAt == [ep \in Epochs |-> IF ep = 0 THEN ExpTable ELSE [i \in 1..NDesc |-> ExpectedAt(Universe[i], ep)]]
+IsFree(di) == Universe[di].key \in FreeKeys
 
 \* Go map iteration order is unspecified: a map call's clauses are compared as a bag
 Count(s, x) == Cardinality({i \in 1..Len(s) : s[i] = x})
 BagEq(s, t) == /\ Len(s) = Len(t)
                /\ \A i \in 1..Len(s) : Count(s, s[i]) = Count(t, s[i])
-Matches(di, clauses) == IF Universe[di].car = "map" THEN BagEq(clauses, ExpTable[di]) ELSE clauses = ExpTable[di]
+MatchesAt(di, clauses, ep) == IF IsFree(di) THEN clauses # <<>>
+                              ELSE IF Universe[di].car = "map" THEN BagEq(clauses, ExpTableAt[ep][di]) ELSE clauses = ExpTableAt[ep][di]
+Matches(di, clauses) == MatchesAt(di, clauses, 0)
 
 \* Contract steps of a history of calls (used by Trace_Pools): a return must be the call's own expectation and must
 \* leave the inputs alone; a later re-read of what was handed out must show the same thing.
 RetOK(di, clauses, inputSame, rmSame) == Matches(di, clauses) /\ inputSame /\ rmSame
+RetOKAt(di, clauses, inputSame, rmSame, ep) == MatchesAt(di, clauses, ep) /\ inputSame /\ rmSame
 RecheckOK(handed, clauses, same) == same /\ clauses = handed
 
 \* default wording by which the harness recognises a marker class (single source; DESIGN Appendix A)
 Markers == << [m |-> "required", t |-> "it is required"], [m |-> "lt", t |-> "it is less than "],
               [m |-> "gt", t |-> "it is more than "], [m |-> "re", t |-> "regex match is failed"],
-              [m |-> "notexist", t |-> "is not exist"] >>
+              [m |-> "dt", t |-> "it is not datetime"], [m |-> "notexist", t |-> "is not exist"] >>
 
 ----------------------------------------------------------------------------
 (* Layer B: the mechanism, for a fixed small set of concurrent calls       *)
@@ -474,7 +521,7 @@ CfgOf(c) == LET o == objs[obj[c]] IN
             [tag |-> IF Kind(c) = "struct" THEN info[c].tag ELSE DOf(c).tag,
              typed |-> TypedOfObj(o),
              unscoped |-> IF UnscopedOfObj(o) = <<>> /\ Kind(c) = "struct" THEN info[c].ovrm ELSE UnscopedOfObj(o),
-             fns |-> FnsOfObj(o)]
+             fns |-> FnsOfObj(o), glob |-> GlobAt(0)]
 
 \* `fieldInfo := cacheStructType.fieldInfos[i]` copies the entry, so an override stays local; with WriteThrough it would not
 Walk(c) ==
